@@ -33,7 +33,9 @@
 (*                                                                             *)
 (* Part B - the send pipeline as a state machine over a scripted chain:        *)
 (*   GetState(none|uninit|active(n)|frozen|err), Build, Send(ok|err),          *)
-(*   Poll(err|value), Deadline, Return(ok|err).  GetState and Poll carry `own`: *)
+(*   Poll(err|value), Deadline, Return(ok|err).  A polled value counts only if  *)
+(*   it is GREATER than the seqno used (unchanged and lower values - a lagging  *)
+(*   server - mean "not advanced").             GetState and Poll carry `own`: *)
 (*   whether the wallet asked about its own account.                           *)
 (* Step(p, s, e) is the transition function; the generator (gen/) enumerates   *)
 (* its behaviours, the trace spec (trace/) folds it over recorded runs.        *)
